@@ -99,6 +99,9 @@ class VBaseErr(BaseException):
         BaseException.__init__(self, "vbase-%d" % vid)
         self._vvid = vid
 
+    def __bool__(self):          # unusual but legal: an exception object that is falsy (like one defining __len__)
+        return self._vvid % 2 == 0
+
 
 class VErr(Exception):
     """exception raised by the program / harness; vid = schedule independent id"""
@@ -106,6 +109,9 @@ class VErr(Exception):
     def __init__(self, vid):
         Exception.__init__(self, "verr-%d" % vid)
         self._vvid = vid
+
+    def __bool__(self):          # unusual but legal: an exception object that is falsy (like one defining __len__)
+        return self._vvid % 2 == 0
 
 
 class HangError(BaseException):
